@@ -51,6 +51,16 @@ def gen_files(tier):
                         continue
                     yield {'recs': [{'eflr': int(eflr), 'type': typ, 'L': L, 'lb': 'coded', 'cuts': cut, 'opts': opts,
                                      'newvr': [0] + list(pack)}]}
+    # records that span several maximum-size visible records
+    for L, chunk in ((32744, 16372), (20000, 8190)):
+        cuts = list(range(chunk, L, chunk))
+        n = len(cuts) + 1
+        for opts in ([[0, 0, 0]] * n, [[0, 1, 0]] * n if chunk != 16372 else None):
+            if opts is None:
+                continue
+            yield {'recs': [{'eflr': 1, 'type': 0, 'L': 13, 'lb': 'coded'},
+                            {'eflr': 0, 'type': 127, 'L': L, 'lb': 'coded', 'cuts': cuts, 'opts': opts, 'newvr': [0] * n},
+                            {'eflr': 1, 'type': 1, 'L': 28, 'lb': 'coded', 'cuts': [12], 'opts': [[0, 0, 0], [1, 0, 0]], 'newvr': [0, 1]}]}
     # 2-3 records, reduced per-record alphabet
     variants = [(k, L, lay) for k in kinds for L in (1, 13, 28) for lay in c01.REC_LAYOUTS
                 if not (lay.startswith('split') and L < 2)]
